@@ -9,7 +9,11 @@ exact_predictive_covar with its has_missing dispatch) and under 'fill' + policy 
 which the theorems prove equal to deletion (re-checked here on the executable model), and the OLD
 unmasked covariance formula (run_coded_cov; only to label a regression of the covariance fix and to
 decide which cases are non-trivial).  The implementation is run under both policies, both orders of
-switching on one model object, fast_pred_var on/off, and compared with deletion."""
+switching on one model object, fast_pred_var on/off, and compared with deletion.  Histories of calls on
+one model object also start with / contain calls under the DEFAULT policy 'ignore' (NaN output, not
+compared unless the batch element has no NaN) and toggle fast_pred_var between calls; the model of the
+prediction strategy's state under such histories is Models/C16_settings.v (run_settings; theorem
+c16_call_after_any_history_is_deletion)."""
 import itertools
 import json
 import os
@@ -22,19 +26,20 @@ import gpytorch
 from gpytorch import settings as gs
 from harness.lib import common as C
 
-COQ_TARGETS = ["Models/C16_missing.vo"]
+COQ_TARGETS = ["Models/C16_missing.vo", "Models/C16_settings.vo"]
 LEVEL_NOTE = ("theorems are about the Gallina model of the mask/fill code paths; tie to /repo is differential "
               "(public outputs in float64 vs exact rationals of the deletion model).  Batch reading: under 'mask' an "
               "index that is NaN in ANY batch element is deleted for the whole batch (documented in "
               "settings.observation_nan_policy); under 'fill' deletion is per batch element.  MLL reading: "
               "mask_value * N_total == log_prob(deleted) + priors == deleted_value * N_observed.")
 IMPORTS = ("From Coq Require Import List ZArith QArith Qcanon.\n"
-           "From GPV Require Import Base.LinAlg Base.Exec Base.Expr Models.C01_posterior Models.C16_missing.")
+           "From GPV Require Import Base.LinAlg Base.Exec Base.Expr Models.C01_posterior Models.C16_missing Models.C16_settings.")
 RUN_DEF = "Definition run := run_missing."
 RUN_DEF_D = "Definition run := run_deletion."
 RUN_DEF_F = "Definition run := run_fill."
 RUN_DEF_C = "Definition run := run_coded_cov."
 RUN_DEF_G = "Definition run := run_gauss_terms."
+RUN_DEF_S = "Definition run := run_settings."
 TAGSFX = os.environ.get("VERIF_TAG", "")    # development aid: keeps the scratch directories of concurrent runs apart
 # the sentinel the implementation substitutes for NaN under 'fill' (read from the settings class, not assumed)
 FILL = float(gs.observation_nan_policy._fill_value)
@@ -236,7 +241,20 @@ def predict(model, Xs, ds):
     return mean, cov
 
 
-HISTORIES = [("mask", "fill", "mask", "fill"), ("fill", "mask", "mask")]
+# a history = the sequence of settings under which ONE eval-mode model object is called.  A step is a policy name,
+# optionally followed by "~": fast_pred_var is then the OPPOSITE of the history's base value for that call (the setting is
+# toggled in between).  'ignore' (the default policy) as a first or intermediate step: with NaN targets such a call returns
+# NaNs, which is not compared - but the NEXT call under mask / fill must be the deletion posterior all the same.
+HISTORIES = [("mask", "fill", "mask", "fill"), ("fill", "ignore~", "mask", "mask~"),
+             ("ignore", "mask", "fill~"), ("ignore~", "fill", "mask")]
+
+
+def step_policy(step):
+    return step.rstrip("~")
+
+
+def step_fpv(step, fpv):
+    return (not fpv) if step.endswith("~") else fpv
 
 
 def impl_predictions(ds, pattern, fpv):
@@ -248,7 +266,7 @@ def impl_predictions(ds, pattern, fpv):
         model.eval(); lik.eval()
         with torch.no_grad():
             for i, p in enumerate(h):
-                with policy(p, fpv):
+                with policy(step_policy(p), step_fpv(p, fpv)):
                     res["/".join(h[:i + 1])] = predict(model, Xs, ds)
     return res
 
@@ -337,6 +355,19 @@ def decode_fill(r, tt):
     return d
 
 
+def decode_settings(r, tt):
+    """run_settings: mean / covariance of a call under mask resp. fill after the history [ignore; fill + fast_pred_var;
+    ignore + fast_pred_var] on the model of the prediction strategy's state (Models/C16_settings.v)"""
+    rd = C.Reader(r)
+    if rd.int() != 1:
+        return None
+    if len(r) != 1 + 2 * (2 * tt + 2 * tt * tt):      # a NaN mean prints one entry instead of tt rationals
+        return dict(bad=True)
+    d = dict(mask_mean=rd.qs(tt), mask_cov=rd.qmat(tt, tt), fill_mean=rd.qs(tt), fill_cov=rd.qmat(tt, tt))
+    assert rd.done()
+    return d
+
+
 def decode_coded(r, tt):
     rd = C.Reader(r)
     if rd.int() != 1:
@@ -412,7 +443,6 @@ def check_case(out, ds, pattern, models, fpv_list):
     fam, tt = ds["fam"], ds["t"] * ds["T"]
     desc = dict(ds=ds, pattern=pattern)
     for fpv in fpv_list:
-        tol = TOL_FPV if fpv else TOL
         try:
             preds = impl_predictions(ds, pattern, fpv)
         except Exception as e:
@@ -420,17 +450,26 @@ def check_case(out, ds, pattern, models, fpv_list):
                      "prediction under a NaN policy raised %r" % e, dict(desc, fpv=fpv))
             continue
         for h, (means, covs) in preds.items():
-            pol = h.split("/")[-1]
+            last = h.split("/")[-1]
+            pol, fpv_now = step_policy(last), step_fpv(last, fpv)
+            tol = TOL_FPV if fpv_now else TOL
             hk = "fresh" if "/" not in h else "after-" + "-".join(h.split("/")[:-1])
             for b in range(ds["B"] or 1):
-                m = models[b][pol]
+                if pol == "ignore":
+                    # the default policy: compared only for a batch element without any NaN (then nothing is to be
+                    # deleted and the element must be its own full posterior: models[b]["fill"] is the element's own pattern)
+                    if any(pattern[b]):
+                        continue
+                    m = models[b]["fill"]
+                else:
+                    m = models[b][pol]
                 d = dict(desc, history=h, fpv=fpv, b=b)
                 if has_nan(means[b]) or has_nan(covs[b]):
                     out.fail("nan-in-output:%s:%s" % (pol, hk), "NaN in the posterior under policy %s" % pol, d,
                              impl=dict(mean=means[b], cov=covs[b]))
                     continue
                 if not vec_close(means[b], m["del_mean"], tol):
-                    out.fail("posterior-mean:%s:%s:%s:fpv=%d" % (pol, hk, fam, fpv),
+                    out.fail("posterior-mean:%s:%s:%s:fpv=%d" % (pol, hk, fam, fpv_now),
                              "posterior mean under policy '%s' differs from the mean after deleting the NaN "
                              "observations" % pol, d, impl=means[b], model=flt(m["del_mean"]))
                 if not mat_close(covs[b], m["del_cov"], tol):
@@ -439,7 +478,7 @@ def check_case(out, ds, pattern, models, fpv_list):
                         what = ("posterior covariance under policy '%s' is computed from ALL training rows, NaN "
                                 "ones included (equals the no-mask formula, differs from deletion)" % pol)
                     else:
-                        key = "posterior-cov:%s:%s:%s:fpv=%d" % (pol, hk, fam, fpv)
+                        key = "posterior-cov:%s:%s:%s:fpv=%d" % (pol, hk, fam, fpv_now)
                         what = ("posterior covariance under policy '%s' differs from the covariance after deleting "
                                 "the NaN observations" % pol)
                     out.fail(key, what, d, impl=covs[b], model=flt(m["del_cov"]))
@@ -492,6 +531,10 @@ def model_self_check(out, ds, pattern, m, b):
     if f is not None:
         bad = bad or f["fill_mean"] != m["del_mean"] or f["fill_cov"] != m["del_cov"] \
             or f["hist_fm"] != m["del_mean"] or f["hist_mfmf"] != m["del_mean"]
+    g = m.get("settingsrun")
+    if g is not None:
+        bad = bad or g.get("bad") or g["mask_mean"] != m["del_mean"] or g["fill_mean"] != m["del_mean"] \
+            or g["mask_cov"] != m["del_cov"] or g["fill_cov"] != m["del_cov"]
     if bad:
         out.fail("model:self-consistency", "executable model contradicts its theorems (exact rationals differ)", desc,
                  no_input=True)
@@ -762,7 +805,7 @@ def run_all_models(tag, work, rng, budget):
     the mean / covariance / MLL of the CURRENT code's model under 'mask') and 'fillrun' (run_fill: the
     same under 'fill' and after policy histories) attached.  The theorems say those coincide with
     deletion; the subset re-checks that on the executable model."""
-    t_d, c_d, t_m, c_m, t_f, c_f, t_c, c_c, idx = [], [], [], [], [], [], [], [], []
+    t_d, c_d, t_m, c_m, t_f, c_f, t_c, c_c, idx, c_s = [], [], [], [], [], [], [], [], [], []
     for ds, pats in work:
         N, tt = ds["N"], ds["t"] * ds["T"]
         priors, yb = impl_prior(ds), ybatch(ds)
@@ -778,7 +821,7 @@ def run_all_models(tag, work, rng, budget):
             if (b, p) in chosen:
                 ent["f"][(b, p)] = len(t_f)
                 t_m.append(coq_case(N, tt, KJ, mu, S, y)); c_m.append(k ** 4 + 1)
-                t_f.append(coq_case_fill(N, tt, KJ, mu, S, y)); c_f.append(k ** 4 + N ** 3 + 1)
+                t_f.append(coq_case_fill(N, tt, KJ, mu, S, y)); c_f.append(k ** 4 + N ** 3 + 1); c_s.append(N ** 4)
         for b in range(ds["B"] or 1):
             KJ, mu, S = priors[b]
             t_c.append(coq_case_coded(N, tt, KJ, S)); c_c.append(N ** 4 + 1)
@@ -786,11 +829,12 @@ def run_all_models(tag, work, rng, budget):
     # the deletion batch first (16 shards), then the three small batches together
     from concurrent.futures import ThreadPoolExecutor
     r_d = run_coq(tag, RUN_DEF_D, t_d, c_d)
-    with ThreadPoolExecutor(3) as ex:
-        fm = ex.submit(run_coq, tag + "m", RUN_DEF, t_m, c_m, 8)
-        ff = ex.submit(run_coq, tag + "f", RUN_DEF_F, t_f, c_f, 8)
+    with ThreadPoolExecutor(4) as ex:
+        fm = ex.submit(run_coq, tag + "m", RUN_DEF, t_m, c_m, 6)
+        ff = ex.submit(run_coq, tag + "f", RUN_DEF_F, t_f, c_f, 6)
+        fs = ex.submit(run_coq, tag + "s", RUN_DEF_S, t_f, [c + n3 for c, n3 in zip(c_f, c_s)], 6)
         fc = ex.submit(run_coq, tag + "c", RUN_DEF_C, t_c, c_c, 4)
-        r_m, r_f, r_c = fm.result(), ff.result(), fc.result()
+        r_m, r_f, r_s, r_c = fm.result(), ff.result(), fs.result(), fc.result()
     outl = []
     for (ds, pats), ent in zip(work, idx):
         tt = ds["t"] * ds["T"]
@@ -803,7 +847,8 @@ def run_all_models(tag, work, rng, budget):
                 if key in ent["f"]:
                     d["ascoded"] = decode(r_m[ent["f"][key]], tt)
                     d["fillrun"] = decode_fill(r_f[ent["f"][key]], tt)
-                    if d["fillrun"] is None or d["ascoded"] is None:
+                    d["settingsrun"] = decode_settings(r_s[ent["f"][key]], tt)
+                    if d["fillrun"] is None or d["ascoded"] is None or d["settingsrun"] is None:
                         d = None
             else:
                 d = None
@@ -819,8 +864,9 @@ def run(out, ctx):
     dsl = plan(tier, rng)
     out.rule = ("per data set (families gaussian / fixed-noise / with priors / multitask T=2 / batch B=2; n up to %d "
                 "train points) ALL NaN patterns on the flattened targets except all-missing (batch: pairs of patterns, "
-                "capped); each under policies mask/fill, every step of the histories %s on one model object, "
-                "fast_pred_var off/on; every output is compared with the Coq deletion posterior (exact rationals) of the "
+                "capped); each under policies mask/fill, every step of the histories %s on one model object (a step "
+                "'ignore' = a call under the default policy: compared only for batch elements without NaN, the calls after it "
+                "always; '~' = fast_pred_var toggled for that call), base fast_pred_var off/on; every output is compared with the Coq deletion posterior (exact rationals) of the "
                 "same kernel matrices; non-trivial = at least one missing value and the deletion covariance differs "
                 "from the no-mask covariance by > 1e-6.  Sentinel axis: additional data sets of every family (and 60%% of "
                 "the Gaussian-term cases) carry OBSERVED targets equal to the fill value %r (read from "
